@@ -62,6 +62,8 @@ RULES = {
     'R-DEADCHECK': generic_rules.r_deadcheck,
     'R-FALSYZERO': generic_rules.r_falsyzero,
     'R-DICTCOMP': generic_rules.r_dictcomp,
+    'R-STALEACC': generic_rules.r_staleacc,
+    'R-ZEROTABLE': generic_rules.r_zerotable,
 }
 
 
@@ -128,7 +130,7 @@ PROPS = {
                        'independent decoder recovers the tree, tab-stop widths, terminals output text.',
     },
     'C03': {
-        'rules': ['R-FRAMEFILE', 'R-DISPATCH', 'R-ENC', 'R-NONE', 'R-VOCAB', 'R-AUTOMATON', 'R-OPTKEY', 'R-READER-STATE', 'R-DIRMODE', 'R-OPENMODE', 'R-SIBLING', 'R-OPTSIDE', 'R-PERTREE', 'R-NODELINE'],
+        'rules': ['R-FRAMEFILE', 'R-DISPATCH', 'R-ENC', 'R-NONE', 'R-VOCAB', 'R-AUTOMATON', 'R-OPTKEY', 'R-READER-STATE', 'R-DIRMODE', 'R-OPENMODE', 'R-SIBLING', 'R-OPTSIDE', 'R-PERTREE', 'R-NODELINE', 'DECOR'],
         'filter': {'R-PERTREE': site('transform.run'),
                    'R-OPTSIDE': site('transform.run'),
                    'R-OPENMODE': site('transform.'),
@@ -374,7 +376,7 @@ PROPS = {
 }
 
 # generic misuse patterns (ttsa/rules/generic_rules.py) are looked for in the functions each property is anchored in
-GENERIC = ['R-SUBSTR', 'R-DEADCHECK', 'R-FALSYZERO', 'R-DICTCOMP']
+GENERIC = ['R-SUBSTR', 'R-DEADCHECK', 'R-FALSYZERO', 'R-DICTCOMP', 'R-STALEACC', 'R-ZEROTABLE']
 PROP_SITES = {
     'C01': ('treeinput.', 'trees.parse_label', 'misc.'),
     'C02': ('treeoutput.', 'trees.get_label', 'treeanalysis.gap'),
